@@ -12,7 +12,7 @@ from .cpp01 import vtable_slots, struct_of
 SRC = dict(
     LOA='src/libawkward/array/ListOffsetArray.cpp', LA='src/libawkward/array/ListArray.cpp', RA='src/libawkward/array/RegularArray.cpp',
     IA='src/libawkward/array/IndexedArray.cpp', NA='src/libawkward/array/NumpyArray.cpp', BMA='src/libawkward/array/ByteMaskedArray.cpp',
-    REC='src/libawkward/array/RecordArray.cpp', UMA='src/libawkward/array/UnmaskedArray.cpp', BIT='src/libawkward/array/BitMaskedArray.cpp', IDX='src/libawkward/Index.cpp', CNT='src/libawkward/Content.cpp', UTL='src/libawkward/util.cpp', KD='src/libawkward/kernel-dispatch.cpp',
+    UNI='src/libawkward/array/UnionArray.cpp', REC='src/libawkward/array/RecordArray.cpp', UMA='src/libawkward/array/UnmaskedArray.cpp', BIT='src/libawkward/array/BitMaskedArray.cpp', IDX='src/libawkward/Index.cpp', CNT='src/libawkward/Content.cpp', UTL='src/libawkward/util.cpp', KD='src/libawkward/kernel-dispatch.cpp',
     IDS='src/libawkward/Identities.cpp', SLC='src/libawkward/Slice.cpp', EA='src/libawkward/array/EmptyArray.cpp', KU='src/cpu-kernels/kernel-utils.cpp')
 
 
@@ -403,7 +403,29 @@ CLASSES = {
     'N7awkward13UnmaskedArrayE': ('UMA', '_ZNK7awkward13UnmaskedArray6lengthEv', 'unmasked'),
     'N7awkward15ByteMaskedArrayE': ('BMA', '_ZNK7awkward15ByteMaskedArray6lengthEv', 'bytemasked'),
     'N7awkward11RecordArrayE': ('REC', '_ZNK7awkward11RecordArray6lengthEv', 'record'),
+    'N7awkward12UnionArrayOfIalEE': ('UNI', '_ZNK7awkward12UnionArrayOfIalE6lengthEv', 'union'),
 }
+
+
+def _ptr_vector(nc, mem, o, base):
+    """std::vector<ContentPtr> at o.cells[base..] -> decoded contents"""
+    b, e = o.cells[base][0], o.cells[base + 8][0]
+    bc = [(g, p_) for g, p_ in ptr_cases(b) if p_.obj is not None]
+    ec = [(g, p_) for g, p_ in ptr_cases(e) if p_.obj is not None]
+    conts = []
+    if bc:
+        if len(bc) != 1 or len(ec) != 1:
+            raise Unsupported('contents vector is not a single buffer')
+        qb, qe = bc[0][1], ec[0][1]
+        buf = mem.o[qb.obj]
+        if isinstance(buf, RecObj):
+            for i in range((qe.off - qb.off) // 16):
+                conts.append(decode(nc, mem, buf.cells[qb.off + 16 * i][0]))
+        else:
+            nn = concrete(qe.off - qb.off, 'size of the contents vector') // 2
+            for i in range(nn):
+                conts.append(decode(nc, mem, buf.arr[concrete(qb.off, 'contents offset') + 2 * i]))
+    return conts
 
 
 def decode(nc, mem, p):
@@ -437,6 +459,10 @@ def decode(nc, mem, p):
                     content=decode(nc, mem, cell(fo[3])))
     if kind == 'unmasked':
         return dict(cls=kind, content=decode(nc, mem, cell(fo[1])))
+    if kind == 'union':
+        tags = nc.index_terms(mem, Ptr(q.obj, q.off + fo[1]), 'tags')[0]
+        index = nc.index_terms(mem, Ptr(q.obj, q.off + fo[2]), 'union index')[0]
+        return dict(cls=kind, tags=tags, index=index, contents=_ptr_vector(nc, mem, o, q.off + fo[3]))
     if kind == 'record':
         b, e = cell(fo[2]), cell(fo[2] + 8)
         bc = [(g, p_) for g, p_ in ptr_cases(b) if p_.obj is not None]
@@ -550,6 +576,8 @@ def length_of(d):
         return len(d['mask'])
     if d['cls'] == 'record':
         return concrete(d['length'], 'RecordArray length')
+    if d['cls'] == 'union':
+        return len(d['tags'])
     return len(d['index'])
 
 
@@ -571,6 +599,22 @@ def at(d, k):
     if c == 'record':
         return [at(x, k) for x in d['contents']]
     kk = concrete(k, 'position in a list/index node')
+    if c == 'union':
+        tg = z3.simplify(d['tags'][kk])
+        if z3.is_bv_value(tg):
+            t = tg.as_signed_long()
+            if not (0 <= t < len(d['contents'])):
+                raise Unsupported('union tag %d outside the %d contents' % (t, len(d['contents'])))
+            return at(d['contents'][t], d['index'][kk])
+        # data-dependent tag: ite over the contents (leaf-valued contents only); a tag outside the contents is 'no element'
+        val, none = BV(-11), z3.BoolVal(False)
+        for t, cd in enumerate(d['contents']):
+            e = at(cd, d['index'][kk])
+            if not isinstance(e, Elem):
+                raise Unsupported('union with a data-dependent tag over list-typed contents')
+            val = z3.If(tg == t, e.val, val)
+            none = z3.If(tg == t, e.none, none)
+        return Elem(z3.simplify(val), z3.simplify(none))
     if c == 'bytemasked':
         vw = d['valid_when']
         vw = vw if vw.size() == 8 else z3.ZeroExt(8 - vw.size(), vw)
